@@ -5,6 +5,7 @@ import (
 	"encoding/json"
 	"fmt"
 	"go/ast"
+	"go/parser"
 	"go/printer"
 	"go/token"
 	"go/types"
@@ -194,6 +195,7 @@ var domByType = map[string]string{
 
 // genHarness writes the bounded-run test for the given functions of one package.
 func (w *World) genHarness(pkg string, keys []string) (string, []string, error) {
+	w.markGhostSpecs()
 	imports := map[string]string{"testing": "", "fmt": "", "os": "", "strings": ""}
 	qual := func(p *types.Package) string {
 		if p.Name() == pkg {
@@ -321,7 +323,9 @@ func (w *World) genHarness(pkg string, keys []string) (string, []string, error) 
 			k := 0
 			for _, e := range enss {
 				for j, o := range e.olds {
-					fmt.Fprintf(b, "\t\tvar xvcOld_%d_%d %s = %s\n", k, j, e.oldTyps[j], o)
+					// pre-state values are evaluated defensively: an old() under a guard (m == nil || old(f(m)) ...) may not be
+					// evaluable in every pre-state; the guard then decides the clause
+					fmt.Fprintf(b, "\t\tvar xvcOld_%d_%d %s\n\t\txvcCatch(func() { xvcOld_%d_%d = %s })\n", k, j, e.oldTyps[j], k, j, o)
 				}
 				k++
 			}
@@ -421,6 +425,7 @@ func prefixComma(xs []string) string {
 func (w *World) boundedRun(pkg string, keys []string, target string) *boundedResult {
 	res := &boundedResult{}
 	src, done, err := w.genHarness(pkg, keys)
+	src = dropUnusedImports(src)
 	if err != nil {
 		res.Err = err.Error()
 		return res
@@ -479,7 +484,7 @@ func (w *World) boundedRun(pkg string, keys []string, target string) *boundedRes
 		}
 	}
 	if !sawRuns {
-		res.Err = "harness did not run: " + firstLines(string(out), 12)
+		res.Err = "harness did not run: " + firstLines(string(out), 40)
 	}
 	for _, k := range keys {
 		res.Labels = append(res.Labels, w.harnessLabels[k]...)
@@ -526,16 +531,29 @@ func usesGhost(cl *Clause) bool {
 	if cl.Fn == nil {
 		return false
 	}
+	return bodyUsesGhost(cl.Fn.Decl.Body, ghostSpecs)
+}
+
+// ghostSpecs: specification functions (by bare name and by pkg.name) that read ghost state themselves or through other
+// specification functions (J, NoFusion, ... are folds over the writer's history): clauses calling them have no
+// executable meaning either. Filled once per World by markGhostSpecs.
+var ghostSpecs = map[string]bool{}
+
+func bodyUsesGhost(body ast.Node, extra map[string]bool) bool {
 	found := false
-	ast.Inspect(cl.Fn.Decl.Body, func(n ast.Node) bool {
+	ast.Inspect(body, func(n ast.Node) bool {
 		if ce, ok := n.(*ast.CallExpr); ok {
 			switch f := ce.Fun.(type) {
 			case *ast.Ident:
-				if ghostBuiltins[f.Name] {
+				if ghostBuiltins[f.Name] || extra[f.Name] {
 					found = true
 				}
 			case *ast.IndexExpr:
-				if id, ok := f.X.(*ast.Ident); ok && ghostBuiltins[id.Name] {
+				if id, ok := f.X.(*ast.Ident); ok && (ghostBuiltins[id.Name] || extra[id.Name]) {
+					found = true
+				}
+			case *ast.SelectorExpr:
+				if id, ok := f.X.(*ast.Ident); ok && extra[id.Name+"."+f.Sel.Name] {
 					found = true
 				}
 			}
@@ -545,7 +563,64 @@ func usesGhost(cl *Clause) bool {
 	return found
 }
 
+func (w *World) markGhostSpecs() {
+	for changed := true; changed; {
+		changed = false
+		for key, sf := range w.SpecDecls {
+			if sf.Decl == nil || sf.Decl.Body == nil {
+				continue
+			}
+			name := sf.Decl.Name.Name
+			if ghostSpecs[key] {
+				continue
+			}
+			if bodyUsesGhost(sf.Decl.Body, ghostSpecs) {
+				ghostSpecs[key] = true  // pkg.name
+				ghostSpecs[name] = true // bare name (calls inside the package)
+				changed = true
+			}
+		}
+	}
+}
+
 func (w *World) harnessStates(pkg string) []byte {
 	b, _ := os.ReadFile(filepath.Join(verifDir, "harness", pkg+"_states.go.txt"))
 	return b
+}
+
+// dropUnusedImports removes imports of the generated harness that no selector expression uses (the import list is
+// computed from clause texts, which may mention a package only inside an expression that was not emitted).
+func dropUnusedImports(src string) string {
+	fset := token.NewFileSet()
+	f, err := parser.ParseFile(fset, "harness_test.go", src, parser.ParseComments)
+	if err != nil {
+		return src
+	}
+	used := map[string]bool{}
+	ast.Inspect(f, func(n ast.Node) bool {
+		if se, ok := n.(*ast.SelectorExpr); ok {
+			if id, ok := se.X.(*ast.Ident); ok {
+				used[id.Name] = true
+			}
+		}
+		return true
+	})
+	lines := strings.Split(src, "\n")
+	out := lines[:0:0]
+	inImports := false
+	for _, ln := range lines {
+		t := strings.TrimSpace(ln)
+		if t == "import (" {
+			inImports = true
+		} else if inImports && t == ")" {
+			inImports = false
+		} else if inImports && strings.HasPrefix(t, "\"") {
+			path := strings.Trim(t, "\"")
+			if !used[shortPkg(path)] {
+				continue
+			}
+		}
+		out = append(out, ln)
+	}
+	return strings.Join(out, "\n")
 }
